@@ -118,6 +118,7 @@ pub mod fe {
     entry!(hexa_escape, parse_HexaEscape, HexaEscape);
     entry!(utf8_escape, parse_Utf8Escape, Utf8Escape);
     entry!(string_item, parse_StringItem, StringItem);
+    entry!(whitespace, parse_Whitespace, Whitespace);
 }
 
 fn conv_utf8(e: &fe::Utf8Escape) -> Utf8Escape {
@@ -269,4 +270,34 @@ pub fn e_item<S: Src>(src: &mut S) {
         }
     }
     std::mem::forget(r);
+}
+
+/// the front end's own Whitespace rule (blanks and complete `# ... \\n` comments) on every text of up to N bytes
+pub fn e_ws<const N: usize, S: Src>(src: &mut S) {
+    let (bytes, len) = vrt::draw_input::<N, S>(src, None);
+    let s = vrt::as_input(src, &bytes, len);
+    let b = &bytes[..len];
+    // reference lexer
+    let mut p = 0;
+    loop {
+        if p < len && (b[p] == 9 || b[p] == 10 || b[p] == 12 || b[p] == 13 || b[p] == 32) {
+            p += 1;
+        } else if p < len && b[p] == b'#' {
+            let mut q = p + 1;
+            while q < len && b[q] != b'\n' {
+                q += 1;
+            }
+            if q < len { p = q + 1; } else { break; }   // a comment must be closed by a newline
+        } else {
+            break;
+        }
+    }
+    vcover!(src, p == len && len >= 3 && b[0] == b'#', "a complete comment is skipped");
+    vcover!(src, p == 0 && len >= 2 && b[0] == b'#', "an unterminated comment is not skipped");
+    vcover!(src, p == 0 && len >= 1 && b[0] == 0x0B, "vertical tab is not layout");
+    let r = fe::whitespace(s);
+    match &r {
+        Ok((_, used)) => vcheck!(src, *used == p, "C12: layout between tokens is blanks and complete # comments, nothing else"),
+        Err(_) => vcheck!(src, false, "C12: the layout rule never fails"),
+    }
 }
